@@ -21,7 +21,8 @@ REPO = os.environ.get("VERIF_REPO", "/repo")
 SPEC = os.path.join(VERIF, "spec")
 PROBES = os.path.join(VERIF, "probes")
 STANDINS = os.path.join(VERIF, "standins")
-EVIDENCE = os.path.join(VERIF, "evidence")
+# evidence describes runs against /repo itself; a developer run against another tree (VERIF_REPO) keeps its evidence apart
+EVIDENCE = os.path.join(VERIF, "evidence") if REPO == "/repo" else os.environ.get("VERIF_EVIDENCE", "/var/tmp/nlverif.evidence.other")
 OUT = os.path.join(VERIF, "out")          # replay artifacts (git-ignored)
 GUARD = "NANOLANG_VERIF"
 NCPU = int(os.environ.get("VERIF_JOBS", os.cpu_count() or 4))
